@@ -121,6 +121,12 @@ func checkRoutable(s string) (int, string, string) {
 			kinds = append(kinds, t.Kind)
 		}
 	}
+	nHostParams := 0
+	for _, t := range p.HostToks {
+		if t.Kind != ref.Static {
+			nHostParams++
+		}
+	}
 	count := 0
 	var class, msg string
 	var rec func(i int)
@@ -172,6 +178,9 @@ func checkRoutable(s string) (int, string, string) {
 		choices := []string{"a", "b", "ab"}
 		if kinds[i] == ref.CatchAll {
 			choices = append(choices, "a/b")
+		}
+		if i < nHostParams {
+			choices = append(choices, "1", "10") // digits-only labels (IP-like hosts)
 		}
 		for _, c := range choices {
 			vals[i] = c
